@@ -10,7 +10,7 @@ from refs import angles_ref
 PID = 'C06'
 PARAMS = H.PARAMS
 XMAX = 5 * 10 ** 7
-DEG_SLACK = Fraction(14, 10 ** 14)      # |hp2dec(r/10000) - r/3600| <= 1.4e-13 deg (13-decimal HP parsing)
+from checks.common import DEG_SLACK      # |hp2dec(r/10000) - r/3600| <= 1.4e-13 deg (13-decimal HP parsing)
 
 META = {
     'level': 'other',
@@ -42,26 +42,7 @@ def _mods():
     return gc, tr
 
 
-HPDEC = z3.Function('HPDEC', z3.RealSort(), z3.RealSort())
-
-
-def hpdec_uf(hp):
-    if isinstance(hp, SymReal):
-        return SymReal(HPDEC(hp.z))
-    import geodepy.angles as ga
-    return ga.hp2dec(hp)
-
-
-class swap_global:
-    def __init__(self, mod, name, val):
-        self.mod, self.name, self.val = mod, name, val
-
-    def __enter__(self):
-        self.old = self.mod.__dict__[self.name]
-        self.mod.__dict__[self.name] = self.val
-
-    def __exit__(self, *a):
-        self.mod.__dict__[self.name] = self.old
+from checks.common import hpdec_uf, swap_global, HPDEC
 
 
 def sym_set(gc, pre, labels=('A', 'B'), sd=False, ref_epoch=0):
